@@ -19,6 +19,7 @@ from workflows.context.serializers import BaseSerializer
 from workflows.events import (
     Event,
     StartEvent,
+    StopEvent,
     WorkflowIdleEvent,
 )
 from workflows.runtime.runtime_decorators import (
@@ -32,7 +33,7 @@ from workflows.runtime.types.plugin import (
     InternalRunAdapter,
     V2RuntimeCompatibilityShim,
 )
-from workflows.runtime.types.ticks import WorkflowTick
+from workflows.runtime.types.ticks import TickIdleCheck, WorkflowTick
 from workflows.workflow import Workflow
 
 from .._keyed_lock import KeyedLock
@@ -59,6 +60,19 @@ class _IdleReleaseInternalRunAdapter(BaseInternalRunAdapterDecorator):
         self._store = store
 
     @override
+    async def send_event(self, tick: WorkflowTick) -> None:
+        # an event a step sends to its own run: not idle until it has been processed
+        self._runtime._note_undelivered(self.run_id, tick)
+        await super().send_event(tick)
+
+    @override
+    async def on_tick(self, tick: WorkflowTick) -> None:
+        if not isinstance(tick, TickIdleCheck):
+            # the run is doing something: idle again only at its next WorkflowIdleEvent
+            self._runtime._note_processing(self.run_id, tick)
+        await super().on_tick(tick)
+
+    @override
     async def write_to_event_stream(self, event: Event) -> None:
         if isinstance(event, WorkflowIdleEvent):
             idle_since = datetime.now(timezone.utc)
@@ -74,6 +88,9 @@ class _IdleReleaseInternalRunAdapter(BaseInternalRunAdapterDecorator):
             # Any other published event (step state changes, results, ...) means
             # the run is doing work again: it is no longer a release candidate.
             self._runtime._idle_runs.discard(self.run_id)
+            if isinstance(event, StopEvent):
+                # terminal: whatever was still addressed to the run is moot
+                self._runtime._undelivered.pop(self.run_id, None)
         await super().write_to_event_stream(event)
         if isinstance(event, WorkflowIdleEvent):
             self._runtime._idle_runs.add(self.run_id)
@@ -114,6 +131,9 @@ class IdleReleaseExternalRunAdapter(BaseExternalRunAdapterDecorator):
                 await self._runtime._store.update_handler_status(
                     self.run_id, idle_since=None
                 )
+            # From here on the run has input waiting: it must not be released
+            # until its control loop has picked the event up.
+            self._runtime._note_undelivered(self.run_id, tick)
             await self._decorated.send_event(tick)
 
 
@@ -137,6 +157,8 @@ class IdleReleaseDecorator(BaseRuntimeDecorator):
         self._active_run_ids: set[str] = set()
         # runs whose last published event was WorkflowIdleEvent (still idle right now)
         self._idle_runs: set[str] = set()
+        # ticks accepted for a run that its control loop has not processed yet
+        self._undelivered: dict[str, list[WorkflowTick]] = {}
         self._background_tasks: set[asyncio.Task[None]] = set()
         self.stop_task: asyncio.Task[None] | None = None
         self._idle_timeout = idle_timeout
@@ -146,6 +168,18 @@ class IdleReleaseDecorator(BaseRuntimeDecorator):
         self._background_tasks.add(task)
         task.add_done_callback(self._background_tasks.discard)
         return task
+
+    def _note_undelivered(self, run_id: str, tick: WorkflowTick) -> None:
+        self._idle_runs.discard(run_id)
+        self._undelivered.setdefault(run_id, []).append(tick)
+
+    def _note_processing(self, run_id: str, tick: WorkflowTick) -> None:
+        self._idle_runs.discard(run_id)
+        pending = self._undelivered.get(run_id)
+        if pending:
+            pending[:] = [t for t in pending if t is not tick]
+            if not pending:
+                del self._undelivered[run_id]
 
     @override
     def run_workflow(
@@ -194,11 +228,13 @@ class IdleReleaseDecorator(BaseRuntimeDecorator):
                 return
             if run_id not in self._active_run_ids:
                 return
-            if run_id not in self._idle_runs:
+            if run_id not in self._idle_runs or self._undelivered.get(run_id):
                 # became busy again since it was marked idle (e.g. a waiter
-                # timeout or a retry fired): only release a run that is idle now
+                # timeout or a retry fired), or has input it has not received
+                # yet: only release a run that is idle now
                 return
             self._idle_runs.discard(run_id)
+            self._undelivered.pop(run_id, None)
             self._active_run_ids.discard(run_id)
             self._abort_inner_run(run_id)
             logger.info(f"Released idle handler [run_id={run_id}] from memory")
